@@ -1364,6 +1364,240 @@ variable {α : Type}
 """
 
 
+GLUE_PUBLIC = {
+    "add_crude_birth_flow": (["self", "name", "birth_rate", "dest", "dest_strata", "expected_flow_count"], [
+        "_validate_flowparam(birth_rate)",
+        "is_already_birth_flow = any([type(f) is flows.CrudeBirthFlow or type(f) is flows.ReplacementBirthFlow for f in self.flows])",
+        "if is_already_birth_flow:\n    msg = 'There is already a birth flow in this model, cannot add a second.'\n    raise ValueError(msg)",
+        "self._add_entry_flow(flows.CrudeBirthFlow, name, birth_rate, dest, dest_strata, expected_flow_count)"]),
+    "add_replacement_birth_flow": (["self", "name", "dest", "dest_strata", "expected_flow_count"], [
+        "is_already_birth_flow = any([type(f) is flows.CrudeBirthFlow or type(f) is flows.ReplacementBirthFlow for f in self.flows])",
+        "if is_already_birth_flow:\n    msg = 'There is already a birth flow in this model, cannot add a second.'\n    raise ValueError(msg)",
+        "self._add_entry_flow(flows.ReplacementBirthFlow, name, 1.0, dest, dest_strata, expected_flow_count)"]),
+    "add_importation_flow": (["self", "name", "num_imported", "dest", "split_imports", "dest_strata", "expected_flow_count"], [
+        "_validate_flowparam(num_imported)",
+        "dest_strata = dest_strata or {}",
+        "dest_comps = [c for c in self.compartments if c.is_match(dest, dest_strata)]",
+        "if split_imports:\n    adjustments = [Multiply(1.0 / len(dest_comps))]\nelse:\n    adjustments = None",
+        "self._add_entry_flow(flows.ImportFlow, name, num_imported, dest, dest_strata, expected_flow_count, adjustments)"]),
+    "add_death_flow": (["self", "name", "death_rate", "source", "source_strata", "expected_flow_count"], [
+        "_validate_flowparam(death_rate)",
+        "self._add_exit_flow(flows.DeathFlow, name, death_rate, source, source_strata, expected_flow_count)"]),
+    "add_universal_death_flows": (["self", "name", "death_rate"], [
+        "_validate_flowparam(death_rate)",
+        "is_already_used = any([f.name == name for f in self.flows])",
+        "if is_already_used:\n    msg = f\"There is already a universal death flow called '{name}' in this model,                 cannot add a second.\"\n    raise ValueError(msg)",
+        "for comp_name in self._original_compartment_names:\n    self._add_exit_flow(flows.DeathFlow, name, death_rate, comp_name, source_strata={}, expected_flow_count=None)"]),
+    "add_infection_frequency_flow": (["self", "name", "contact_rate", "source", "dest", "source_strata", "dest_strata", "expected_flow_count"], [
+        "_validate_flowparam(contact_rate)",
+        "self._add_transition_flow(flows.InfectionFrequencyFlow, name, contact_rate, source, dest, source_strata, dest_strata, expected_flow_count, "
+        "find_infectious_multiplier=self._get_infection_frequency_multiplier)"]),
+    "add_infection_density_flow": (["self", "name", "contact_rate", "source", "dest", "source_strata", "dest_strata", "expected_flow_count"], [
+        "_validate_flowparam(contact_rate)",
+        "self._add_transition_flow(flows.InfectionDensityFlow, name, contact_rate, source, dest, source_strata, dest_strata, expected_flow_count, "
+        "find_infectious_multiplier=self._get_infection_density_multiplier)"]),
+    "add_transition_flow": (["self", "name", "fractional_rate", "source", "dest", "source_strata", "dest_strata", "expected_flow_count", "absolute"], [
+        "_validate_flowparam(fractional_rate)",
+        "if absolute:\n    self._add_transition_flow(flows.AbsoluteFlow, name, fractional_rate, source, dest, source_strata, dest_strata, expected_flow_count)\n"
+        "else:\n    self._add_transition_flow(flows.TransitionFlow, name, fractional_rate, source, dest, source_strata, dest_strata, expected_flow_count)"]),
+    "_strata_exist": (["self", "strata"], [
+        "strat_names = [s.name for s in self._stratifications]",
+        "for k, v in strata.items():\n    if k not in strat_names:\n        raise KeyError(f'Invalid stratification {k}')\n    for s in self._stratifications:\n"
+        "        if k == s.name:\n            if v not in s.strata:\n                raise ValueError(f'Invalid stratum {v} for {s}')"]),
+    "stratify_with": (["self", "strat"], [
+        "assert strat.name not in self.stratifications, 'Stratification already exists'",
+        "self._assert_not_finalized()",
+        "strat._validate = self._should_validate",
+        "flow_names = [f.name for f in self.flows]",
+        "for n in strat.flow_adjustments.keys():\n    msg = f\"Flow adjustment for '{n}' refers to a flow that is not present in the model.\"\n    assert n in flow_names, msg",
+        "for fadj in strat.flow_adjustments.values():\n    for _, source_strata, dest_strata in fadj:\n        self._strata_exist(source_strata)\n        self._strata_exist(dest_strata)",
+        "msg = 'All stratification infectiousness adjustments must refer to a compartment that is                present in model.'",
+        "assert all([c in self._original_compartment_names for c in strat.infectiousness_adjustments.keys()]), msg",
+        "if strat.mixing_matrix is not None:\n    assert not strat.is_strain(), 'Strains cannot have a mixing matrix.'\n    msg = 'Mixing matrices only allowed for full stratification.'\n"
+        "    assert strat.compartments == self._original_compartment_names, msg\n    self._mixing_matrices.append(strat.mixing_matrix)\n"
+        "    old_mixing_categories = self._mixing_categories\n    self._mixing_categories = []\n    for mc in old_mixing_categories:\n        for stratum in strat.strata:\n"
+        "            self._mixing_categories.append({**mc, strat.name: stratum})",
+        "if strat.is_strain():\n    msg = 'An infection strain stratification has already been applied, cannot use this                    more than once.'\n"
+        "    assert not any([s.is_strain() for s in self._stratifications]), msg\n    self._disease_strains = strat.strata",
+        "for c in strat.compartments:\n    if c not in self._original_compartment_names:\n        raise Exception('Trying to stratify non-existent compartment', c)",
+        "prev_compartment_names = copy.copy(self.compartments)",
+        "self.compartments = strat._stratify_compartments(self.compartments)",
+        "self._update_compartment_name_map()",
+        "prev_flows = self.flows",
+        "self.flows = []",
+        "for flow in prev_flows:\n    self.flows += flow.stratify(strat)",
+        "self._update_compartment_indices()",
+        "if strat.is_ageing():\n    msg = 'Age stratification can only be applied once'\n    assert not any([s.is_ageing() for s in self._stratifications]), msg\n"
+        "    ages = list(sorted(map(int, strat.strata)))\n    msg = 'Mixing matrices only allowed for full stratification.'\n"
+        "    assert strat.compartments == self._original_compartment_names, msg\n    for age_idx in range(len(ages) - 1):\n        start_age = int(ages[age_idx])\n"
+        "        end_age = int(ages[age_idx + 1])\n        for comp in prev_compartment_names:\n            source = comp.stratify(strat.name, str(start_age))\n"
+        "            dest = comp.stratify(strat.name, str(end_age))\n            ageing_rate = 1.0 / (end_age - start_age)\n"
+        "            self.add_transition_flow(name=f'ageing_{source}_to_{dest}', fractional_rate=ageing_rate, source=source.name, dest=dest.name, "
+        "source_strata=source.strata, dest_strata=dest.strata, expected_flow_count=1)",
+        "self._stratifications.append(strat)",
+        "self.stratifications[strat.name] = strat",
+        "self.tracker.append_action(ActionType.STRATIFY, strat=strat)"]),
+    "_update_compartment_name_map": (["self"], [
+        "names = set([c.name for c in self.compartments])",
+        "name_map = {}",
+        "for n in names:\n    name_map[n] = [c for c in self.compartments if c.name == n]",
+        "self._compartment_name_map = name_map"]),
+    "_update_compartment_indices": (["self"], [
+        "compartment_idx_lookup = {}",
+        "for idx, c in enumerate(self.compartments):\n    c.idx = idx\n    compartment_idx_lookup[c] = idx",
+        "for flow in self.flows:\n    flow.update_compartment_indices(compartment_idx_lookup)"]),
+}
+
+GLUE_PUBLIC_LEAN = """
+end
+
+section
+variable {α : Type} [Zero α] [One α] [Add α] [Sub α] [Mul α] [Div α] [NatCast α] [LT α] [DecidableLT α]
+
+/-- `model.py::_validate_flowparam`; `param_ok` stands for `isinstance(param, GraphObject) or isinstance(param, Real)` -/
+def _validate_flowparam (param_ok : Bool) : Res Unit := guardE param_ok "Flow parameter must be GraphObject or float"
+
+/-- `model.py::CompartmentalModel.add_crude_birth_flow` (`type(f) is flows.X` is the flow's kind) -/
+def add_crude_birth_flow (self : Model α) (name : String) (birth_rate_ok : Bool) (birth_rate : Expr α) (dest : String) (dest_strata : Option Strata)
+    (expected_flow_count : Option Nat) : Res (Model α) := do
+  _validate_flowparam birth_rate_ok
+  let is_already_birth_flow := self.flows.any (fun f => f.kind == FlowKind.crudeBirth || f.kind == FlowKind.replBirth)
+  if is_already_birth_flow then fail "There is already a birth flow in this model, cannot add a second."
+  else _add_entry_flow self .crudeBirth name birth_rate dest dest_strata expected_flow_count []
+
+/-- `model.py::CompartmentalModel.add_replacement_birth_flow` -/
+def add_replacement_birth_flow (self : Model α) (name : String) (dest : String) (dest_strata : Option Strata) (expected_flow_count : Option Nat) : Res (Model α) := do
+  let is_already_birth_flow := self.flows.any (fun f => f.kind == FlowKind.crudeBirth || f.kind == FlowKind.replBirth)
+  if is_already_birth_flow then fail "There is already a birth flow in this model, cannot add a second."
+  else _add_entry_flow self .replBirth name (.const 1) dest dest_strata expected_flow_count []
+
+/-- `model.py::CompartmentalModel.add_importation_flow` (`1.0 / len(dest_comps)` raises `ZeroDivisionError` for an empty selection) -/
+def add_importation_flow (self : Model α) (name : String) (num_imported_ok : Bool) (num_imported : Expr α) (dest : String) (split_imports : Bool)
+    (dest_strata : Option Strata) (expected_flow_count : Option Nat) : Res (Model α) := do
+  _validate_flowparam num_imported_ok
+  let dest_strata := dest_strata.getD []
+  let dest_comps := self.comps.filter (fun c => c.isMatch dest dest_strata)
+  let adjustments ← (if split_imports then do
+      guardE (dest_comps.length != 0) "ZeroDivisionError"
+      pure [Adj.mul (.const ((1 : α) / (dest_comps.length : α)))]
+    else pure [] : Res (List (Adj α)))
+  _add_entry_flow self .importF name num_imported dest (some dest_strata) expected_flow_count adjustments
+
+/-- `model.py::CompartmentalModel.add_death_flow` -/
+def add_death_flow (self : Model α) (name : String) (death_rate_ok : Bool) (death_rate : Expr α) (source : String) (source_strata : Option Strata)
+    (expected_flow_count : Option Nat) : Res (Model α) := do
+  _validate_flowparam death_rate_ok
+  _add_exit_flow self .death name death_rate source source_strata expected_flow_count
+
+/-- `model.py::CompartmentalModel.add_universal_death_flows` (the loop mutates `self`: a monadic fold) -/
+def add_universal_death_flows (self : Model α) (name : String) (death_rate_ok : Bool) (death_rate : Expr α) : Res (Model α) := do
+  _validate_flowparam death_rate_ok
+  let is_already_used := self.flows.any (fun f => f.name == name)
+  if is_already_used then fail "There is already a universal death flow with this name in this model, cannot add a second."
+  else self.origNames.foldlM (fun (self : Model α) comp_name => _add_exit_flow self .death name death_rate comp_name (some []) none) self
+
+/-- `model.py::CompartmentalModel.add_infection_frequency_flow` -/
+def add_infection_frequency_flow (self : Model α) (name : String) (contact_rate_ok : Bool) (contact_rate : Expr α) (source dest : String)
+    (source_strata dest_strata : Option Strata) (expected_flow_count : Option Nat) : Res (Model α) := do
+  _validate_flowparam contact_rate_ok
+  _add_transition_flow self .infFreq name contact_rate source dest source_strata dest_strata expected_flow_count
+
+/-- `model.py::CompartmentalModel.add_infection_density_flow` -/
+def add_infection_density_flow (self : Model α) (name : String) (contact_rate_ok : Bool) (contact_rate : Expr α) (source dest : String)
+    (source_strata dest_strata : Option Strata) (expected_flow_count : Option Nat) : Res (Model α) := do
+  _validate_flowparam contact_rate_ok
+  _add_transition_flow self .infDens name contact_rate source dest source_strata dest_strata expected_flow_count
+
+/-- `model.py::CompartmentalModel.add_transition_flow` -/
+def add_transition_flow (self : Model α) (name : String) (fractional_rate_ok : Bool) (fractional_rate : Expr α) (source dest : String)
+    (source_strata dest_strata : Option Strata) (expected_flow_count : Option Nat) (absolute : Bool) : Res (Model α) := do
+  _validate_flowparam fractional_rate_ok
+  if absolute then _add_transition_flow self .absolute name fractional_rate source dest source_strata dest_strata expected_flow_count
+  else _add_transition_flow self .transition name fractional_rate source dest source_strata dest_strata expected_flow_count
+
+/-- `model.py::CompartmentalModel._strata_exist`: every key names an applied stratification and every value one of its strata -/
+def _strata_exist (self : Model α) (strata : Strata) : Res Unit := do
+  let strat_names := self.strats.map (fun s => s.name)
+  strata.forM (fun kv => do
+    let k := kv.1
+    let v := kv.2
+    if !strat_names.contains k then fail "Invalid stratification"
+    else self.strats.forM (fun s =>
+      if k == s.name then (if !s.strata.contains v then fail "Invalid stratum" else pure ()) else pure ()))
+
+/-- `model.py::CompartmentalModel.stratify_with`, statement by statement.  `strat._stratify_compartments` is `Build.stratifyComps` (its translation
+is tied in `Props/C04Source.lean`), `flow.stratify(strat)` is `Build.stratifyFlow` (the four translated `stratify` methods, same file); the
+name map and index lookups refreshed by `_update_compartment_name_map` / `_update_compartment_indices` are functions of `self.compartments`
+(pinned below the method list) and carry no state of their own in the model; `strat.flow_adjustments` is walked declaration by declaration. -/
+def stratify_with (self : Model α) (strat : Strat α) : Res (Model α) := do
+  guardE (!self.strats.any (fun t => t.name == strat.name)) "Stratification already exists"
+  _assert_not_finalized self
+  let flow_names := self.flows.map (fun f => f.name)
+  strat.flowAdj.forM (fun d => guardE (flow_names.contains d.flow) "Flow adjustment refers to a flow that is not present in the model.")
+  strat.flowAdj.forM (fun d => do
+    _strata_exist self d.srcStrata
+    _strata_exist self d.dstStrata)
+  guardE (strat.infAdj.all (fun ia => self.origNames.contains ia.1)) "infectiousness adjustments must refer to a compartment that is present in model"
+  let self1 ← (match strat.mixing with
+    | none => pure self
+    | some mixing_matrix => do
+        guardE (!strat.isStrain) "Strains cannot have a mixing matrix."
+        guardE (strat.comps == self.origNames) "Mixing matrices only allowed for full stratification."
+        let old_mixing_categories := self.mixingCats
+        let mixing_categories := old_mixing_categories.foldl (fun (acc : List Strata) mc =>
+          strat.strata.foldl (fun (acc : List Strata) stratum => acc ++ [dictSet mc strat.name stratum]) acc) []
+        pure { self with mixingMats := self.mixingMats ++ [mixing_matrix], mixingCats := mixing_categories } : Res (Model α))
+  let self2 ← (if strat.isStrain then do
+        guardE (!self.strats.any (fun s => s.isStrain)) "An infection strain stratification has already been applied"
+        pure { self1 with strains := strat.strata }
+      else pure self1 : Res (Model α))
+  strat.comps.forM (fun c => if !self.origNames.contains c then fail "Trying to stratify non-existent compartment" else pure ())
+  let prev_compartment_names := self2.comps
+  let compartments := stratifyComps self2.comps strat
+  let prev_flows := self2.flows
+  let flows ← prev_flows.foldlM (fun (flows : List (Flow α)) flow => do
+      let fs ← stratifyFlow flow strat
+      pure (flows ++ fs)) []
+  let self3 := { self2 with comps := compartments, flows := flows }
+  let self4 ← (if strat.isAgeing then do
+        guardE (!self.strats.any (fun s => s.isAgeing)) "Age stratification can only be applied once"
+        let ages := sortInts (strat.strata.filterMap (fun x => x.toInt?))
+        guardE (strat.comps == self.origNames) "Mixing matrices only allowed for full stratification."
+        (List.range (ages.length - 1)).foldlM (fun (self : Model α) age_idx => do
+          let start_age := ages.getD age_idx 0
+          let end_age := ages.getD (age_idx + 1) 0
+          prev_compartment_names.foldlM (fun (self : Model α) comp => do
+            let source := comp.stratify strat.name (toString start_age)
+            let dest := comp.stratify strat.name (toString end_age)
+            guardE (end_age != start_age) "ZeroDivisionError"
+            let ageing_rate : α := (1 : α) / (((end_age - start_age).toNat : Nat) : α)
+            add_transition_flow self ("ageing_" ++ source.serialize ++ "_to_" ++ dest.serialize) true (.const ageing_rate) source.name dest.name
+              (some source.strata) (some dest.strata) (some 1) false) self) self3
+      else pure self3 : Res (Model α))
+  pure { self4 with strats := self4.strats ++ [strat], actions := self4.actions ++ [.stratify strat.name] }
+"""
+
+
+def gen_glue_public(tree, methods, out):
+    """the public flow-adding methods, `_strata_exist` and `stratify_with` of `CompartmentalModel` and the module function `_validate_flowparam`:
+    pinned text, fixed rendering (see `gen_glue`)"""
+    for fname, (args, wanted) in GLUE_PUBLIC.items():
+        fn = methods.get(fname)
+        if fn is None:
+            raise Untranslatable(f"CompartmentalModel.{fname} not found")
+        if [a.arg for a in fn.args.args] != args:
+            raise Untranslatable(f"signature of {fname}: " + str([a.arg for a in fn.args.args]))
+        body = [ast.unparse(st) for st in fn.body if not (isinstance(st, ast.Expr) and isinstance(st.value, ast.Constant))]
+        if body != wanted:
+            k = next((i for i, (a, b_) in enumerate(zip(body, wanted)) if a != b_), min(len(body), len(wanted)))
+            raise Untranslatable(f"{fname}: statement {k} is not the expected text: " + (body[k][:160] if k < len(body) else "<missing>"))
+    vf = [n for n in tree.body if isinstance(n, ast.FunctionDef) and n.name == "_validate_flowparam"]
+    want_vf = ["if not (isinstance(param, GraphObject) or isinstance(param, Real)):\n    raise TypeError(f'Flow parameter must be GraphObject or float, not {type(param)}')"]
+    if len(vf) != 1 or [a.arg for a in vf[0].args.args] != ["param"] or [ast.unparse(st) for st in vf[0].body] != want_vf:
+        raise Untranslatable("_validate_flowparam is not the expected text")
+    out.append(GLUE_PUBLIC_LEAN)
+
+
 def gen_glue(tree, out, report):
     """the private flow-adding methods of `CompartmentalModel` (`_assert_not_finalized`, `_validate_expected_flow_count`, `_add_entry_flow`,
     `_add_exit_flow`, `_add_transition_flow`): recognised statement by statement against the expected source text and emitted in a fixed
@@ -1470,6 +1704,7 @@ def gen_glue(tree, out, report):
             "    new_flows ++ [{ kind := flow_cls, name := name, src := some sd.1, dst := some sd.2, param := param, adjs := [] }]) []\n"
             "  _validate_expected_flow_count expected_flow_count new_flows\n"
             "  pure { self with flows := self.flows ++ new_flows }\n")
+        gen_glue_public(tree, methods, out)
         report["model.py glue"] = "ok"
     except Untranslatable as e:
         report["model.py glue"] = "untranslatable: " + str(e)
@@ -1731,6 +1966,33 @@ def gen_mixing(tree, out, report):
               "  match mixing_matrices with\n  | [] => [[(1 : α)]]\n  | [mm] => mm\n  | base_matrix :: args => compute_final_matrix base_matrix args\n")
         return o
     attempt("final_mixing_matrix", t_mix)
+
+    def t_weights():
+        fn = top_func(tree, "map_flow_keys")
+        if [a.arg for a in fn.args.args] != ["m"]:
+            raise Untranslatable("signature of map_flow_keys")
+        body = [ast.unparse(st) for st in fn.body if not (isinstance(st, ast.Expr) and isinstance(st.value, ast.Constant))]
+        wanted = [
+            "from summer2.adjust import Overwrite",
+            "realised_flows = {}",
+            "for i, f in enumerate(m.flows):\n    full_flow = [f.param.obj]\n    for a in f.adjustments:\n        if isinstance(a, Overwrite):\n"
+            "            full_flow = [a.param.obj]\n        else:\n            full_flow.append(a.param.obj)\n    out_func = full_flow[0]\n"
+            "    for fparam in full_flow[1:]:\n        if isinstance(fparam, Data):\n            if isinstance(fparam.data, Real):\n"
+            "                fparam = fparam.data\n        out_func = out_func * fparam\n    realised_flows[i] = GraphObjectParameter(out_func)",
+            "return realised_flows"]
+        if body != wanted:
+            k = next((i for i, (a, b_) in enumerate(zip(body, wanted)) if a != b_), min(len(body), len(wanted)))
+            raise Untranslatable(f"map_flow_keys: statement {k} is not the expected text: " + (body[k][:160] if k < len(body) else "<missing>"))
+        return ("/-- `param_impl.py::map_flow_keys` (pinned text): per flow, the chain of graph objects starts at the flow's parameter, an `Overwrite` adjustment "
+                "restarts it, every other adjustment is appended; the realised weight is the left-to-right product of the chain (unboxing a scalar `Data` "
+                "before multiplying does not change the product).  The dict keyed by flow index is the list in flow order. -/\n"
+                "def map_flow_keys (flows : List (Flow α)) : List (Expr α) :=\n"
+                "  flows.map (fun f =>\n"
+                "    let full_flow := f.adjs.foldl (fun (full_flow : List (Expr α)) a =>\n"
+                "      match a with\n      | .ovr e => [e]\n      | .mul e => full_flow ++ [e]) [f.param]\n"
+                "    let out_func := full_flow.headD f.param\n"
+                "    full_flow.tail.foldl (fun (out_func : Expr α) fparam => Expr.mul out_func fparam) out_func)\n")
+    attempt("map_flow_keys", t_weights)
 
 
 MHEADER = """-- GENERATED by harness/translate/gen_rates.py from /repo (summer2/parameters/param_impl.py). Do not edit.
